@@ -139,12 +139,13 @@ type appCfg struct {
 	NoScopeMW     bool // Handle mounted without the scope middleware
 	HasInit       bool // an initializer function exists (needed for scope-fail)
 	Decoy         bool // a second Handle wrapper with the opposite options is built afterwards (its route is never requested)
+	NilHandlers   bool // handlers that are not customised are passed as nil explicitly (WithErrorHandler(nil)): documented as "the default is used"
 	ErrHPassive   bool // the custom error handler only answers the request; it does not tell the framework to stop (gin: no Abort)
 }
 
 func (c appCfg) String() string {
-	return fmt.Sprintf("%s mw=%d customErr=%v(passive=%v) customClose=%v handle=%v recovery=%v customHandle=%v ctl=%v noScopeMW=%v init=%v decoy=%v",
-		c.Framework, c.NMw, c.CustomErr, c.ErrHPassive, c.CustomClose, c.UseHandle, c.Recovery, c.CustomHandle, c.CtlRegistered, c.NoScopeMW, c.HasInit, c.Decoy)
+	return fmt.Sprintf("%s mw=%d customErr=%v(passive=%v) nilHandlers=%v customClose=%v handle=%v recovery=%v customHandle=%v ctl=%v noScopeMW=%v init=%v decoy=%v",
+		c.Framework, c.NMw, c.CustomErr, c.ErrHPassive, c.NilHandlers, c.CustomClose, c.UseHandle, c.Recovery, c.CustomHandle, c.CtlRegistered, c.NoScopeMW, c.HasInit, c.Decoy)
 }
 
 func buildProvider(w *webWorld, cfg appCfg) (godi.Provider, error) {
@@ -365,9 +366,13 @@ func stdAdapter(chi bool) adapter {
 			}
 			if cfg.CustomErr {
 				opts = append(opts, godichi.WithErrorHandler(errH))
+			} else if cfg.NilHandlers {
+				opts = append(opts, godichi.WithErrorHandler(nil))
 			}
 			if cfg.CustomClose {
 				opts = append(opts, godichi.WithCloseErrorHandler(func(error) { closeErrs.Add(1) }))
+			} else if cfg.NilHandlers {
+				opts = append(opts, godichi.WithCloseErrorHandler(nil))
 			}
 			mwf = godichi.ScopeMiddleware(p, opts...)
 			if cfg.UseHandle {
@@ -408,9 +413,13 @@ func stdAdapter(chi bool) adapter {
 			}
 			if cfg.CustomErr {
 				opts = append(opts, godihttp.WithErrorHandler(errH))
+			} else if cfg.NilHandlers {
+				opts = append(opts, godihttp.WithErrorHandler(nil))
 			}
 			if cfg.CustomClose {
 				opts = append(opts, godihttp.WithCloseErrorHandler(func(error) { closeErrs.Add(1) }))
+			} else if cfg.NilHandlers {
+				opts = append(opts, godihttp.WithCloseErrorHandler(nil))
 			}
 			mwf = godihttp.ScopeMiddleware(p, opts...)
 			if cfg.UseHandle {
@@ -483,9 +492,13 @@ func ginAdapter(w *webWorld, p godi.Provider, cfg appCfg) func(string) (int, any
 			}
 			c.AbortWithStatus(599)
 		}))
+	} else if cfg.NilHandlers {
+		opts = append(opts, godigin.WithErrorHandler(nil))
 	}
 	if cfg.CustomClose {
 		opts = append(opts, godigin.WithCloseErrorHandler(func(error) { closeErrs.Add(1) }))
+	} else if cfg.NilHandlers {
+		opts = append(opts, godigin.WithCloseErrorHandler(nil))
 	}
 	e := gin.New()
 	if !cfg.NoScopeMW {
@@ -502,6 +515,8 @@ func ginAdapter(w *webWorld, p godi.Provider, cfg appCfg) func(string) (int, any
 			ho = append(ho, godigin.WithPanicHandler(func(c *gin.Context, v any) { w.count(reqID(c.Request), "panicH"); c.AbortWithStatus(598) }),
 				godigin.WithScopeErrorHandler(func(c *gin.Context, err error) { w.count(reqID(c.Request), "scopeErrH"); c.AbortWithStatus(597) }),
 				godigin.WithResolutionErrorHandler(func(c *gin.Context, err error) { w.count(reqID(c.Request), "resErrH"); c.AbortWithStatus(596) }))
+		} else if cfg.NilHandlers {
+			ho = append(ho, godigin.WithPanicHandler(nil), godigin.WithScopeErrorHandler(nil), godigin.WithResolutionErrorHandler(nil))
 		}
 		if cfg.CtlRegistered {
 			final = godigin.Handle(func(ctl *Ctl, c *gin.Context) {
@@ -548,9 +563,13 @@ func echoAdapter(w *webWorld, p godi.Provider, cfg appCfg) func(string) (int, an
 	}
 	if cfg.CustomErr {
 		opts = append(opts, godiecho.WithErrorHandler(func(c echo.Context, err error) error { w.count(reqID(c.Request()), "errH"); return c.NoContent(599) }))
+	} else if cfg.NilHandlers {
+		opts = append(opts, godiecho.WithErrorHandler(nil))
 	}
 	if cfg.CustomClose {
 		opts = append(opts, godiecho.WithCloseErrorHandler(func(error) { closeErrs.Add(1) }))
+	} else if cfg.NilHandlers {
+		opts = append(opts, godiecho.WithCloseErrorHandler(nil))
 	}
 	e := echo.New()
 	e.HideBanner = true
@@ -610,9 +629,13 @@ func fiberAdapter(w *webWorld, p godi.Provider, cfg appCfg) func(string) (int, a
 	}
 	if cfg.CustomErr {
 		opts = append(opts, godifiber.WithErrorHandler(func(c *fiber.Ctx, err error) error { w.count(fid(c), "errH"); return c.SendStatus(599) }))
+	} else if cfg.NilHandlers {
+		opts = append(opts, godifiber.WithErrorHandler(nil))
 	}
 	if cfg.CustomClose {
 		opts = append(opts, godifiber.WithCloseErrorHandler(func(error) { closeErrs.Add(1) }))
+	} else if cfg.NilHandlers {
+		opts = append(opts, godifiber.WithCloseErrorHandler(nil))
 	}
 	app := fiber.New(fiber.Config{DisableStartupMessage: true})
 	// the framework's recover middleware outermost: a handler panic must not kill the process,
@@ -870,6 +893,7 @@ func TestC16Web(t *testing.T) {
 			CtlRegistered: rapid.IntRange(0, 3).Draw(rt, "ctl") != 0,
 			HasInit:       rapid.Bool().Draw(rt, "hasInit"),
 			ErrHPassive:   rapid.Bool().Draw(rt, "errHPassive"),
+			NilHandlers:   rapid.IntRange(0, 2).Draw(rt, "nilHandlers") == 0,
 		}
 		if cfg.UseHandle {
 			cfg.NoScopeMW = rapid.IntRange(0, 5).Draw(rt, "noScopeMW") == 0
